@@ -670,6 +670,12 @@ def text_rules(rep, F, funcs, is_noreturn):
         def mcm(call, f=f):
             # calls on this reader that move the cursor kill the facts about it
             cal = call.get("callee", "")
+            g_ = getattr(F, "_by_id", {}).get(call.get("calleeId"))
+            if g_ is not None:
+                from ..cfg import _pure_predicate
+                e_ = _pure_predicate(g_)
+                if e_ is not None and not any(x["k"] in ("CXXThisExpr", "MemberExpr", "CallExpr", "CXXMemberCallExpr") for x in walk(e_)):
+                    return set()          # a one-line predicate over its parameters only: it cannot move the cursor
             if re.match(r"mp::internal::(TextReader|ReaderBase)::", cal) and \
                     cal.split("::")[-1] not in ("ReportError", "DoReportError", "IsEOF", "ptr", "locale"):
                 return {PTR}
